@@ -498,9 +498,18 @@ class Gen:
         self.model["classes"].append(cls)
         cls["doc"] = self.doc()
         bl = ", ".join(("virtual " if v else "") + "public " + b for b, v in bases)
+        # (v3, shadow) a member typedef of a root class that hides a narrower typedef of the same name in the enclosing
+        # scope; derived classes spell it unqualified (the inherited long long must be found, not the outer int)
+        shadow = None
+        if getattr(self, "shadow", False) and not bases and not nested_in and r.random() < 0.6:
+            shadow = "vt_%d" % r.randrange(10000)
+            self.h.append(f"typedef int {shadow};")
+            cls["shadow_td"] = shadow
         self.h.append(f"class {name}{' : ' + bl if bl else ''} {{")
         self.h.append("PUBLISHED:")
         ind = "  "
+        if shadow:
+            self.h.append(f"{ind}typedef long long {shadow};")
         # nested enum
         if r.random() < 0.4 * self.size:
             cls["enums"].append(self.gen_enum(owner=cls, indent=ind)["qname"])
@@ -637,6 +646,8 @@ class Gen:
                              r.choice([2, 3]))
             if getattr(self, "ext", False) and "s" in kinds and "b" not in kinds and r.random() < 0.5:
                 kinds.append("b")      # const std::string & next to bool: a char* would prefer bool
+            if getattr(self, "ext", False) and "f" in kinds and r.random() < 0.6:
+                kinds.append("F")      # (v3) float next to double: every wrapper must reach the overload of its own width
             seen_sigs = set()
             for kd in kinds:
                 ps = []
@@ -645,6 +656,8 @@ class Gen:
                         t = T("int", c="int")
                     elif ch == "f":
                         t = T("float", c="double")
+                    elif ch == "F":
+                        t = T("float", c="float")
                     elif ch == "b":
                         t = T("bool")
                     elif ch == "s":
@@ -680,6 +693,19 @@ class Gen:
                                           const=bm["const"], virtual=True, indent=ind, override=True)
                     f["overrides"] = bm["qname"]
                     cls["methods"].append(f)
+        if getattr(self, "shadow", False):
+            for b, _ in bases:
+                td = self.classes[b].get("shadow_td")
+                if td:
+                    cls["shadow_td"] = td
+                    ll = T("int", c="long long")
+                    f = self.gen_function(cls, "method", ret=ll, const=r.random() < 0.5, indent=ind,
+                                          params=[dict(name=f"sv_{r.randrange(100)}", type=ll, default=None, default_value=None)])
+                    # the declaration spells the type through the inherited typedef, unqualified
+                    self.h[-1] = self.h[-1].replace("long long", td)
+                    f["shadow_typedef"] = td
+                    cls["methods"].append(f)
+                    break
         if getattr(self, "ext", False):
             # a method that HIDES a base-class virtual (same name and parameters, different constness): not an override
             for b, _ in bases:
@@ -688,8 +714,17 @@ class Gen:
                     if bm.get("virtual") and bm["kind"] == "method" and not bm.get("overload_set") and r.random() < 0.7 \
                             and bm["name"] not in [m["name"] for m in cls["methods"]] and not bm["name"].startswith("operator"):
                         ps = [dict(p, default=None, default_value=None) for p in bm["params"]]
+                        # (v3) or: same constness, but one class parameter differs in the const of its pointee/referent
+                        flip = [i for i, p_ in enumerate(ps) if p_["type"]["k"] == "obj" and
+                                p_["type"].get("mode") in ("ref", "ptr", "cref", "cptr")]
+                        hconst = not bm["const"]
+                        if flip and r.random() < 0.6:
+                            i_ = r.choice(flip)
+                            md = {"ref": "cref", "cref": "ref", "ptr": "cptr", "cptr": "ptr"}[ps[i_]["type"]["mode"]]
+                            ps[i_] = dict(ps[i_], type=dict(ps[i_]["type"], mode=md))
+                            hconst = bm["const"]
                         f = self.gen_function(cls, "method", name=bm["name"], ret=bm["ret"], params=ps,
-                                              const=not bm["const"], virtual=False, indent=ind)
+                                              const=hconst, virtual=False, indent=ind)
                         f["hides"] = bm["qname"]
                         cls["methods"].append(f)
             if r.random() < 0.35:
@@ -1080,6 +1115,8 @@ class Gen:
         fks = r.sample(fk, 2)
         if getattr(self, "ext", False) and "s" in fks and "b" not in fks:
             fks.append("b")
+        if getattr(self, "ext", False) and "f" in fks and r.random() < 0.6:
+            fks.append("F")
         fseen = set()
         for kd in fks:
             sg = tuple(("b" if (ch == "s" and not getattr(self, "strings", True)) else ch) for ch in (kd if kd != "none" else ""))
@@ -1088,7 +1125,7 @@ class Gen:
             fseen.add(sg)
             ps = []
             for j, ch in enumerate(kd if kd != "none" else ""):
-                t = {"i": T("int", c="int"), "f": T("float", c="double"), "b": T("bool"),
+                t = {"i": T("int", c="int"), "f": T("float", c="double"), "F": T("float", c="float"), "b": T("bool"),
                      "s": T("string", ref=True) if getattr(self, "strings", True) else T("bool")}[ch]
                 ps.append(dict(name=f"o{j}_{r.randrange(100)}", type=t, default=None, default_value=None))
             f = self.gen_function(None, "free", name=oname, params=ps, ns=ns)
@@ -1186,13 +1223,15 @@ class Lib:
 
 
 def generate(rng, name="liba", size=1.0, docs=True, native=False, prior=None, dep_bases=(), n_classes=None,
-             adversarial=False, strings=True, ordering=False, oddities=False, arrays=True, ext=False, opaque=False):
+             adversarial=False, strings=True, ordering=False, oddities=False, arrays=True, ext=False, opaque=False,
+             shadow=False):
     g = Gen(rng, name, size=size, docs=docs, native=native, prior=prior)
     g.strings = strings
     g.ordering = ordering
     g.oddities = oddities
     g.arrays = arrays
     g.opaque = opaque
+    g.shadow = shadow     # v3: inherited member typedef hiding an outer typedef (C01)
     g.ext = ext       # v2 features: bool overloads, MAKE_SEQ_PROPERTY, nested classes, hiding methods
     g.generate(n_classes=n_classes, dep_bases=dep_bases)
     return Lib(g)
